@@ -38,7 +38,7 @@ def recipe(c: Check):
     if st is not None and cnt:
         for name, least in (("NROUNDOK", 100), ("NDOMAINBELONGS", 5), ("NDOMAINCASEONLY", 2), ("NINVALID", 50), ("NUNKNOWNTYPE", 5),
                             ("NTEMPLATEOK", 30), ("NTLSFLAGON", 6), ("NENVOK", 14), ("NENVEQ", 8), ("NSTRICTREJ", 100),
-                            ("NSECTIONREJ", 80), ("NSECTIONACC", 80)):
+                            ("NSECTIONREJ", 80), ("NSECTIONACC", 80), ("NRENDERTRACE", 100)):
             if cnt.get(name, 0) < least:
                 c.broken.append(dict(kind="coverage", name="counter %s = %s < %s: the generator no longer reaches a branch the property names"
                                      % (name, cnt.get(name, 0), least), detail=""))
@@ -50,6 +50,15 @@ def recipe(c: Check):
                             ("list_locations:absent", 5)):
             if ini.get(name, 0) < least:
                 c.broken.append(dict(kind="coverage", name="ini counter %s = %s < %s" % (name, ini.get(name, 0), least), detail=""))
+        lcs = f.get("legacy_common") or {}
+        for name, least in (("keys_client", 45), ("keys_server", 50), ("loads", 190)):
+            if lcs.get(name, 0) < least:
+                c.broken.append(dict(kind="coverage", name="legacy common counter %s = %s < %s" % (name, lcs.get(name, 0), least), detail=""))
+        c.notes.append("legacy ini keys honoured only together with their guard: %s" % json.dumps(lcs.get("guarded_keys_ignored_without_guard", {}), sort_keys=True))
+        lv = f.get("unknown_field_levels") or {}
+        for name, least in (("client:top.proxies[].plugin(sweep)", 20), ("client:top.visitors[].plugin(sweep)", 20)):
+            if lv.get(name, 0) < least:
+                c.broken.append(dict(kind="coverage", name="strict sweep level %s = %s < %s" % (name, lv.get(name, 0), least), detail=""))
         fl = f.get("flags") or {}
         tp = f.get("templates") or {}
         for src, name, least in ((f, "documents_client", 50), (f, "documents_server", 20), (f, "strict_unknown_rejected", 100),
@@ -81,7 +90,8 @@ def recipe(c: Check):
              "client-common, proxy and visitor structs (found by reflection) set to -65536..70000 on a valid configuration and run through the real "
              "ValidateServerConfig / ValidateClientCommonConfig / ValidateVisitorConfigurer / ValidateProxyConfigurerForClient vs Model/ValidateSections.v, "
              "plus generated whole sections with one invalid setting; (j) every proxy and visitor type as a legacy ini section (optional list settings "
-             "absent / empty / given) vs its TOML form through LoadClientConfig. distinct = distinct case text; "
+             "absent / empty / given) vs its TOML form through LoadClientConfig; (k) every key of the legacy [common] sections of frpc.ini and "
+             "frps.ini with two distinct values vs the same setting in TOML through LoadClientConfig / LoadServerConfig. distinct = distinct case text; "
              "non-trivial = every case (each carries a generated input)",
         assumptions=["strconv.ParseFloat / float product is an oracle: bandwidth theorems hold for any such function; the harness fills it with observed values",
                      "TOML/YAML/JSON parsers, text/template, cobra/pflag are third-party: their agreement is observed on generated documents, not proved",
